@@ -90,6 +90,15 @@ def one_case(ctx, rng, nodes, edges, aliases, extra_kw, spacing):
         if aliases is not None and gone and rng.random() < 0.5:
             aliases = dict(aliases)
             aliases[rng.choice(gone)] = "Deep"           # a module of the source tree that the limited architecture does not contain
+    elif rng.random() < 0.3:
+        # the architecture is built from a module list that does not name the packages above its modules (what a scan with
+        # module_path below root_path hands over): the graph adds them as nodes, and they are modules like the others - they are
+        # labelled, and an alias for one of them is an alias for an existing module
+        leaves_only = [n for n in nodes if not any(o.startswith(n + ".") for o in nodes)]
+        arch = rules.make_arch_direct(leaves_only, edges)
+        if set(arch.modules) != set(nodes):
+            raise rules.HarnessError("an architecture built from the leaf modules does not hold their ancestor packages")
+        ctx.stat("architecture_built_without_naming_the_ancestor_packages")
     else:
         arch = rules.make_arch_direct(nodes, edges)
     kw = dict(extra_kw)
